@@ -10,13 +10,14 @@ PROPS = {
         "corr_filters": ["::new", "::standard", "::default", "::shape", "::rate", "::scale", "::location", "::freedom", "::p", "::n",
                          "::min", "::max", "::mean", "::std_dev", "::population", "::successes", "::draws", "::shape_a", "::shape_b",
                          "::freedom_1", "::freedom_2", "::mu", "::c", "::r", "::lambda", "::mode", "::variance"],
-        "not_covered": [XR_NOTE, "vector/matrix constructors (Categorical, Multinomial, Dirichlet, MultivariateNormal, MultivariateStudent): search only",
-                        "Cholesky-based positive-definiteness (nalgebra is not modelled)"],
+        "hand_suites": ["categorical", "multivariate"],
+        "not_covered": [XR_NOTE, "vector/matrix constructors are proved about hand models (Model/Multivariate.lean, Model/CategoricalModel.lean) tied by correspondence, not about translated code",
+                        "Cholesky success = positive definiteness is proved for 1x1 and 2x2 matrices only; for n >= 3 the domain clause is the model predicate LA.choleskyNew ≠ none"],
         "assumptions": ["documented domains transcribed by hand from the `# Errors` doc sections into Statrs/Spec/Domain.lean"],
     },
     "C01": {
         "corr_filters": ["::cdf", "::min", "::max"],
-        "hand_suites": ["empirical"],
+        "hand_suites": ["empirical", "categorical"],
         "also_search": [("C15", "Empirical")],
         "also_props": ["C10/StudentsT", "C15/Observations"],
         "not_covered": [DIST_NOTE, SF_NOTE, "range/monotonicity of the incomplete gamma/beta/erf algorithms in floating point"],
@@ -24,7 +25,7 @@ PROPS = {
     },
     "C02": {
         "corr_filters": ["::sf", "::cdf"],
-        "hand_suites": ["empirical"],
+        "hand_suites": ["empirical", "categorical"],
         "also_search": [("C15", "Empirical")],
         "also_props": ["C10/StudentsT", "C15/Observations"],
         "not_covered": [DIST_NOTE, SF_NOTE, "agreement of the two independent continued fractions gamma_lr / gamma_ur in floating point"],
@@ -33,6 +34,7 @@ PROPS = {
     "C03": {
         "corr_filters": ["::pdf", "::pmf", "::cdf"],
         "also_props": ["C10/StudentsT", "C10/Delegation"],
+        "hand_suites": ["categorical"],
         "not_covered": [DIST_NOTE, SF_NOTE, "C03 derivative/integral theorems for families whose cdf is an incomplete gamma/beta/erf (search only)",
                         "finiteness / overflow of closed-form densities (Float-only)"],
         "assumptions": ["Real-number semantics for theorems; IEEE semantics only through the bit-level correspondence and the Float counterexample theorems"],
@@ -40,23 +42,26 @@ PROPS = {
     "C04": {
         "corr_filters": ["::ln_pdf", "::ln_pmf", "::pdf", "::pmf"],
         "also_props": ["C10/StudentsT", "C10/Delegation"],
+        "hand_suites": ["categorical"],
         "not_covered": [DIST_NOTE, "underflow regions ('may be finite but not +inf/NaN')", "multivariate log-densities (see C19)"],
         "assumptions": ["Real.log 0 = 0 over ℝ: statements are restricted to points with positive density; off-support behaviour is covered by the ∀α guard lemmas"],
     },
     "C05": {
         "corr_filters": ["::inverse_cdf", "::cdf", "crate::distribution::internal"],
         "also_props": ["C10/StudentsT", "C10/LocScaleNormalCauchy", "C10/LocScaleLaplaceGumbelLevy", "C10/LocScaleUniformTriangular"],
-        "hand_suites": ["inv_beta_reg"],
+        "hand_suites": ["inv_beta_reg", "categorical"],
         "not_covered": [DIST_NOTE, SF_NOTE, "convergence/accuracy of the iterative inverses (Gamma Newton steps, inv_beta_reg AS 109): pin + search only"],
         "assumptions": [],
     },
     "C07": {
         "corr_filters": ["::mean", "::variance", "::std_dev", "::entropy", "::skewness"],
+        "hand_suites": ["categorical"],
         "not_covered": [DIST_NOTE, "moment integrals of non-elementary densities and all entropy/skewness integrals: formula level only, tied to the density by the search"],
         "assumptions": [],
     },
     "C08": {
         "corr_filters": ["::median", "::mode", "::min", "::max"],
+        "hand_suites": ["categorical"],
         "not_covered": [DIST_NOTE, "modes/medians of special-function families (search only)", "documented-approximation medians (40%-60% band): search only"],
         "assumptions": [],
     },
@@ -76,7 +81,7 @@ PROPS = {
     },
     "C12": {
         "corr_filters": ["crate::function", "::new", "Hypergeometric::", "DiscreteUniform::", "Geometric::", "i64::", "i32::", "u64::", "u32::", "f64::"],
-        "hand_suites": ["empirical"],
+        "hand_suites": ["empirical", "categorical"],
         "also_search": [("C15", "Empirical")],
         "also_props": ["C15/Observations"],
         "not_covered": ["termination of convergence-tested floating-point loops (incomplete gamma series/continued fraction, Kolmogorov series, inv_beta_reg) and of rejection samplers: they terminate because of rounding, which the ℝ model does not carry — watchdog only",
@@ -113,7 +118,7 @@ PROPS = {
         "corr_filters": ["crate::stats_tests::fisher", "Hypergeometric::"],
         "hand_suites": ["ranktests"],
         "also_props": ["C18/RankTests", "C17/RankTests"],
-        "not_covered": ["two-sided Fisher search correctness (EPSILON-slack scans): exact-oracle search only; the KS lattice DP (Schroer-Trenkler) and the Marsaglia-Tsang-Wang matrix power are hand-modelled and tied by the ranktests correspondence, but no theorem relates them to the exact null probability", "floating-point accuracy of the hypergeometric masses"],
+        "not_covered": ["two-sided Fisher: bounds massLE(p) ≤ v ≤ massLE(p/EPSILON) and the exact branch structure are proved relative to UnimodalPmfSpec (strict unimodality of the hypergeometric pmf is a premise, proved only for a witness table); the KS lattice DP (Schroer-Trenkler) and the Marsaglia-Tsang-Wang matrix power are hand-modelled and tied by the ranktests correspondence, but no theorem relates them to the exact null probability", "floating-point accuracy of the hypergeometric masses"],
         "assumptions": [],
     },
     "C17": {
